@@ -312,12 +312,22 @@ impl Cell {
     /// Adds an environment box at a designed gap `d` (negative = overlap) from the box of body `target`
     /// (0..5 link, J_TOOL) in posture q. Returns the env index.
     pub fn add_designed_obstacle(&mut self, rng: &mut Rng, q: &[f64; 6], target: usize, d: f64) -> usize {
+        self.add_designed_obstacle_at(rng, q, target, d, None)
+    }
+
+    /// The same with the face of the target box (axis, side) chosen by the caller instead of drawn.
+    pub fn add_designed_obstacle_at(&mut self, rng: &mut Rng, q: &[f64; 6], target: usize, d: f64, face: Option<(usize, f64)>) -> usize {
         let fr = self.link_frames(q);
         let (mesh, f) = if target == J_TOOL { (self.tool.as_ref().unwrap(), fr[5]) } else { (&self.links[target], fr[target]) };
         let h = mesh.box_half.unwrap();
         let c = mesh.box_centre;
-        let k = rng.usize(3);
-        let s = rng.sign();
+        let (k, s) = match face {
+            Some(f) => f,
+            None => {
+                let k = rng.usize(3);
+                (k, rng.sign())
+            }
+        };
         // vertex count anti-correlated with size
         let small = rng.bool(0.5);
         let (ho, n) = if self.fine {
@@ -376,6 +386,29 @@ impl Cell {
         }
         let pose_in_base = f.mul(&Fr::new(I3, centre));
         self.base = Some(RMesh::boxm(ho, [0.0; 3], if self.fine { rng.usize(3) } else { 0 }).transformed(&pose_in_base));
+    }
+
+    /// Adds a floor / wall / ceiling: a flat plate that is exactly aligned with the world axes (its pose is a pure
+    /// translation by f32-representable amounts), through or next to the box of link `target` in posture q.
+    pub fn add_plate(&mut self, rng: &mut Rng, q: &[f64; 6], target: usize) -> usize {
+        let fr = self.link_frames(q);
+        let c = fr[target].apply(self.links[target].box_centre);
+        let axis = rng.usize(3);
+        let s = self.scale.max(0.3);
+        let mut p = c;
+        // half of the plates pass through the middle of the link, the others up to 0.3 reach beside it
+        if rng.bool(0.5) {
+            p[axis] += rng.range(-0.3, 0.3) * s;
+        }
+        for k in 0..3 {
+            if k != axis {
+                p[k] += rng.range(-0.2, 0.2) * s;
+            }
+            p[k] = (p[k] as f32) as f64;
+        }
+        let mesh = RMesh::plate(axis, rng.range(0.5, 1.5) * s, rng.range(0.5, 1.5) * s, if self.fine { 1 + rng.usize(4) } else { 1 });
+        self.env.push((mesh, Fr::new(I3, p)));
+        self.env.len() - 1
     }
 
     pub fn add_random_obstacle(&mut self, rng: &mut Rng) -> usize {
